@@ -78,7 +78,7 @@ Definition isfile (d : disk) (p : path) : bool := match dl d p with Some (NFile 
 
 Inductive err :=
 | ENoSuchFile | ENotVersioned | EFileExists | EFileNotFound | ENotADirectory | EIsADirectory
-| EMoveFailed | ERenameFailed | EFilesExist | ETypeError | EOSError | EInconsistentDelta
+| EMoveFailed | ERenameFailed | EFilesExist | EInconsistentDelta
 | ENotAFile | ERoot.
 
 (* errno of touching [p] when its parent is not a directory *)
@@ -101,7 +101,7 @@ Definition d_set (d : disk) (p : path) (n : node) : disk :=
 Definition os_rename_err (d : disk) (p q : path) : option err :=
   match parent_err d q with
   | Some e => Some e
-  | None => if under p q then Some EOSError else None
+  | None => if under p q then Some EMoveFailed else None        (* EINVAL *)
   end.
 
 (* ------------------------------------------------------------------ *)
@@ -310,10 +310,10 @@ Definition bzr_rename_one (s : state) (p q : path) : result :=
               | None => refuse EMoveFailed s
               | Some _ =>
                   if under cur q then
-                    (if fe && path_eqb cur p then refuse ETypeError s else Stuck)
+                    (if fe && path_eqb cur p then refuse EMoveFailed s else Stuck)
                   else if fe then
                     match os_rename_err (sdisk s) p q with
-                    | Some _ => refuse ETypeError s      (* "raise BzrMoveFailedError(..., e[1])": OSError is not subscriptable *)
+                    | Some _ => refuse EMoveFailed s     (* BzrMoveFailedError(from, to, e.strerror) *)
                     | None => ok (with_inv (with_disk s (d_rename (sdisk s) p q)) (inv_rename i1 cur q) (snext s))
                     end
                   else ok (with_inv s (inv_rename i1 cur q) (snext s))
@@ -345,10 +345,10 @@ Definition bzr_move (s : state) (p d : path) : result :=
             let te := exists_ (sdisk s) q in
             if negb te && negb fe then refuse ERenameFailed s
             else if te && fe then refuse EFilesExist s
-            else if under p q then (if fe then refuse ETypeError s else Stuck)
+            else if under p q then (if fe then refuse EMoveFailed s else Stuck)
             else if fe then
               match os_rename_err (sdisk s) p q with
-              | Some _ => refuse ETypeError s
+              | Some _ => refuse EMoveFailed s
               | None => ok (with_inv (with_disk s (d_rename (sdisk s) p q)) (inv_rename (sinv s) p q) (snext s))
               end
             else ok (with_inv s (inv_rename (sinv s) p q) (snext s))
@@ -510,8 +510,8 @@ Definition g_versioned (ix : list path) (p : path) : bool :=
 Definition ix_add (ix : list path) (p : path) : list path := if memp p ix then ix else ix ++ [p].
 Definition ix_del (ix : list path) (p : path) : list path := filter (fun q => negb (path_eqb q p)) ix.
 
-(* an index entry below something that is a file on disk: lstat raises ENOTDIR,
-   which snapshot_workingtree does not catch (candidate finding C09-git-notadir) *)
+(* an index entry below something that is a file on disk: such entries read as missing
+   (snapshot_workingtree catches ENOTDIR since 1cfde6e); revert cannot restore them *)
 Definition g_notadir (s : state) : bool :=
   existsb (fun p => existsb (fun q => isfile (sdisk s) q) (prefixes p)) (sindex s).
 
@@ -560,9 +560,7 @@ Definition git_rename_one (s : state) (p q : path) : result :=
         else if exists_ d q then refuse EFilesExist s
         else if negb (isdir d p) && negb (memp p ix) then refuse EMoveFailed s
         else match os_rename_err d p q with
-             | Some EOSError => refuse EOSError s
-             | Some EFileNotFound => refuse EMoveFailed s
-             | Some e => refuse e s
+             | Some _ => refuse EMoveFailed s          (* every OSError of os.rename is reported this way *)
              | None => finish (d_rename d p q) k
              end
   end.
@@ -607,8 +605,6 @@ Definition git_pairs (s : state) (modified_only : bool) : bool :=
   existsb (fun c => existsb (list_eqb N.eqb c) srcs) adds.
 
 Definition git_commit (s : state) : result :=
-  if g_notadir s then refuse ENotADirectory s else
-  if git_pairs s true then Stuck else    (* candidate finding C09-git-commit-copy *)
   let files := filter (fun e => is_file_entry (snd e)) (map (fun p => (p, view_entry (sdisk s) p)) (sindex s)) in
   let ix := filter (fun p => isfile (sdisk s) p ||
                              (isdir (sdisk s) p && negb (memp p (map fst (gbasis s))))) (sindex s) in
@@ -640,7 +636,7 @@ Definition git_revert_guard (s : state) : bool :=
   negb (git_pairs s false) && negb add_d_like.
 
 Definition git_revert (s : state) : result :=
-  if g_notadir s then refuse ENotADirectory s else
+  if g_notadir s then Stuck else          (* finding C09-git-revert-notadir: TransformRenameFailed *)
   if negb (git_revert_guard s) then Stuck else
   let v := git_snapshot s in
   let b := git_basis_tree s in
@@ -732,7 +728,7 @@ Definition err_name (e : err) : string :=
   | EFileNotFound => "FileNotFoundError" | ENotADirectory => "NotADirectoryError"
   | EIsADirectory => "IsADirectoryError" | EMoveFailed => "BzrMoveFailedError"
   | ERenameFailed => "BzrRenameFailedError" | EFilesExist => "RenameFailedFilesExist"
-  | ETypeError => "TypeError" | EOSError => "OSError" | EInconsistentDelta => "InconsistentDelta"
+  | EInconsistentDelta => "InconsistentDelta"
   | ENotAFile => "NotAFile" | ERoot => "Root"
   end%string.
 Definition ostatus (st : status) : obs := match st with SOk => OT "ok" | SErr e => OE (err_name e) end.
@@ -797,8 +793,7 @@ Definition observe (f : format) (s : state) : list obs :=
   let view := map (fun p => orow p (view_entry (sdisk s) p)) vp in
   let chg := match f with
              | Bzr => OL (map snd (isort row_leb (bzr_rows s)))
-             | Git => if g_notadir s then OE "NotADirectoryError"
-                      else OL (map snd (isort row_leb (git_rows s)))
+             | Git => OL (map snd (isort row_leb (git_rows s)))
              end in
   let extras := isort (fun a b => lex_leb (join_path (fst a)) (join_path (fst b)))
                       (filter (fun e => negb (memp (fst e) vp)) (sdisk s)) in
